@@ -72,3 +72,11 @@ Theorem C07_source_constructor : forall c preview,
       motionDetector_framesHz d = r_fps c /\
       cw_next w' = r_gap c + 4.
 Proof. exact tie_NewMotionDetector. Qed.
+
+From TR Require Import proofs.Bridges.
+
+(* ---- the detector is fed by motion/motionprocessor.go as it is now (proofs/TieProc.v, restated in proofs/Bridges.v):
+   on every history the translated processor makes exactly the model's calls - every accepted frame reaches Detect exactly
+   once, inside or outside the recording window, recording or not; a bad frame never does *)
+Theorem C07_source_processor_feeds_detector : BProc.processor_source_tie_stmt.
+Proof. exact BProc.processor_source_tie. Qed.
